@@ -41,7 +41,11 @@ func checkC09(c c08Case, o *Obs) error {
 		if cb.t == "csv" {
 			tt = tCSV
 		}
+		if c.SlowIdx > 0 && cb.t == "fasta" {
+			slowRecord(c.SlowIdx-1, 4000) // one target's worker finishes late: hundreds of later targets overtake it
+		}
 		out, err := runTopRanking(c, cb.q, cb.t, qt, tt)
+		slowRecord(-1, 0)
 		if err != nil {
 			return fmt.Errorf("query=%s target=%s: %v", cb.q, cb.t, err)
 		}
@@ -68,6 +72,7 @@ func checkC09(c c08Case, o *Obs) error {
 		}
 	}
 	o.LabelIf(len(c.Queries) >= 2, "queries>=2")
+	o.LabelIf(len(c.Targets) > 256, "targets>256")
 	o.LabelIf(strings.Trim(c.Ref, "ACGT") != "", "iupac-reference")
 	o.LabelIf(len(c.Ref) > 64, "wide-alignment")
 	for _, l := range strings.Split(tCSV+qCSV, "\n") {
@@ -91,6 +96,15 @@ func genC09(t *rapid.T) c08Case {
 	c.Ref, c.Queries, c.Targets = genUDInput(t, minQ, true)
 	hugeRows = false
 	c.Opts = genUDOpts(t, c.Targets, len(c.Ref))
+	if len(c.Ref) < 1000 && rapid.IntRange(0, 11).Draw(t, "manyTargets") == 0 {
+		// hundreds of targets, mostly copies (ties on distance and ambiguity count are decided by file order, which
+		// the fasta path has to restore after its parallel workers)
+		base := len(c.Targets)
+		for k := 0; len(c.Targets) < rapid.SampledFrom([]int{270, 400, 600}).Draw(t, "manyTargetsN"); k++ {
+			c.Targets = append(c.Targets, FaRec{ID: fmt.Sprintf("rep%d", k), Seq: c.Targets[k%base].Seq})
+		}
+		c.SlowIdx = 1 + rapid.IntRange(0, 40).Draw(t, "slowIdx")
+	}
 	return c
 }
 
